@@ -46,6 +46,15 @@ func (env *SpecEnv) ghostCall(name string, x *ast.CallExpr) (Val, bool) {
 			k, _ = env.eval(x.Args[1]).C[0].Int64()
 		}
 		return intVal(Select(Select(vc.heapIn(env.st, "$TraceArgs", SMem), i), IntK(100+k))), true
+	case "evarr", "evlen":
+		// evarr(q, i) / evlen(q, i): backing array id / length of the i-th (slice or string) argument of the call at position q
+		i := env.eval(x.Args[0]).C[0]
+		k, _ := env.eval(x.Args[1]).C[0].Int64()
+		base := int64(300)
+		if name == "evlen" {
+			base = 400
+		}
+		return intVal(Select(Select(vc.heapIn(env.st, "$TraceArgs", SMem), i), IntK(base+k))), true
 	case "evresnil":
 		// evresnil(q, k): the k-th result of the call at trace position q was nil
 		i := env.eval(x.Args[0]).C[0]
@@ -766,6 +775,23 @@ func (vc *VC) applyContract(x ast.Node, con *Contract, full string, sig *types.S
 		for len(evArgs) < 200 {
 			evArgs = append(evArgs, Zero)
 		}
+		// slots 300+i / 400+i: backing array id and length of the i-th argument when it is a slice or string
+		defer func(args []Val) {
+			n := vc.heap(st, "$TraceLen", SInt)
+			pos := Sub(n, One)
+			ta := vc.heap(st, "$TraceArgs", SMem)
+			row := Select(ta, pos)
+			ch := false
+			for i, a := range args {
+				if a.T != nil && (kindOf(a.T) == KSlice || kindOf(a.T) == KString) {
+					row = Store(Store(row, IntK(int64(300+i)), a.C[0]), IntK(int64(400+i)), a.Len())
+					ch = true
+				}
+			}
+			if ch {
+				st.heaps["$TraceArgs"] = Store(ta, pos, row)
+			}
+		}(args)
 		for i := 0; i < sig.Results().Len(); i++ {
 			rv := post[rnames[i]]
 			nilFlag := Zero
@@ -1201,7 +1227,7 @@ func mentionsTrace(e ast.Expr) bool {
 		if c, ok := n.(*ast.CallExpr); ok {
 			if id, ok := c.Fun.(*ast.Ident); ok {
 				switch id.Name {
-				case "tracelen", "ev", "evarg", "evres":
+				case "tracelen", "ev", "evarg", "evres", "evarr", "evlen", "evresnil":
 					found = true
 				}
 			}
